@@ -432,7 +432,7 @@ def replace(t, p, new):
     return tuple(l)
 
 
-MUTATIONS = ["undefined-name", "drop-def", "dup-def", "dup-label", "cycle-two", "cycle-self", "alias-cycle",
+MUTATIONS = ["defmode-cycle", "undefined-name", "drop-def", "dup-def", "dup-label", "cycle-two", "cycle-self", "alias-cycle",
              "illegal-shift", "ref-mode", "inner-mode", "unknown-head", "unknown-shift-mode", "head-contradicts",
              "head-vs-shift", "swap-head", "strip-head"]
 
@@ -443,6 +443,20 @@ def mutate(rng, env, kind):
     i = rng.randrange(len(env))
     n, h, b = env[i]
     nodes = list(paths(b))
+    if kind == "defmode-cycle":
+        # F20's shape: two structural definitions of different modes tied into one cycle by two aliases
+        a, c = rng.sample(MODES, 2)
+        fa, fc = rng.choice([f for f in MODES if shift_ok("up", f, a)]), rng.choice([f for f in MODES if shift_ok("up", f, c)])
+        ch = rng.choice(["plus", "with"])
+        gadget = [("W1", None, (ch, [("la", ("name", "U1")), ("lb", ("up", fa, a, ("unit",)))])),
+                  ("U1", None, ("name", "V1")),
+                  ("V1", None, (ch, [("la", ("name", "X1")), ("lb", ("up", fc, c, ("unit",)))])),
+                  ("X1", None, ("name", "W1"))]
+        if rng.random() < 0.5:
+            rng.shuffle(gadget)
+        for g in gadget:
+            env.insert(rng.randrange(len(env) + 1), g)
+        return env
     if kind == "undefined-name":
         p, _ = rng.choice(nodes)
         env[i] = (n, h, replace(b, p, ("name", rng.choice(["Undef", "T99", "t0"]))))
@@ -583,6 +597,8 @@ def stream(seed, n_envs, thorough=False):
 
 
 FIXED = [
+    ("fix:f20", "defmode-cycle", [("w", None, ("plus", [("l", ("name", "u")), ("r", ("up", "lin", "lin", ("unit",)))])), ("u", None, ("name", "v")),
+                                  ("v", None, ("plus", [("l", ("name", "x")), ("r", ("up", "aff", "aff", ("unit",)))])), ("x", None, ("name", "w"))]),
     ("fix:f15", "head-vs-shift", [("A", "aff", ("up", "mul", "mul", ("unit",)))]),
     ("fix:f3", "dup-label", [("A", None, ("plus", [("a", ("unit",)), ("a", ("lolli", ("unit",), ("unit",)))]))]),
     ("fix:selfalias", "cycle-self", [("A", None, ("name", "A"))]),
